@@ -350,6 +350,58 @@ def r5(ctx):
                             weak.append(c_["op"])
                 for bi, t in f.calls(r"str>::(starts_with|ends_with|contains|strip_prefix|find)$"):
                     weak.append(t["callee"].split("::")[-1])
+            UPPER = r"to_ascii_uppercase$|str>::to_uppercase$|make_ascii_uppercase$"
+            LOWERC = r"to_ascii_lowercase$|str>::to_lowercase$"
+            if op == "add" and not weak:
+                # polarity: the push is reached only when every equality test with an existing entry came out FALSE
+                for pb in pushes_:
+                    # (the test sits in the scan loop, so the push is not control-dependent on it in the forward sense:
+                    # look at each equality switch and at which of its edges can no longer reach the push)
+                    for a_ in sorted(f.live_blocks()):
+                        c_ = f.cond_of_switch(a_)
+                        if not (c_ and c_["kind"] == "call" and re.search(r"PartialEq::(eq|ne)$", c_["callee"])):
+                            continue
+                        for s_ in f.succ(a_):
+                            tr_ = f.truth_of_edge(a_, s_)
+                            if tr_ is not None and c_.get("neg"):
+                                tr_ = not tr_
+                            if tr_ is None or f.reachable(s_, pb) or s_ == pb:
+                                continue
+                            equal_edge = (c_["callee"].endswith("::eq") and tr_ is True) or (c_["callee"].endswith("::ne") and tr_ is False)
+                            if not equal_edge:
+                                weak.append("skips when an existing entry DIFFERS from the new one (`%s` taken as %s)" % (c_["callee"].split("::")[-1], tr_))
+                    # what is stored is the argument itself (as given or lower-cased: the enforcement code lower-cases again)
+                    psl = f.slice_op(f.term(pb)["args"][1])
+                    if psl.has_call(UPPER) or 2 not in psl.params or [c for c in psl.callee_names() if not re.search(LOWERC + r"|ToString::to_string$|to_owned$|ToOwned::to_owned$|String::from$|From::from$|Into::into$|Deref::deref$", c)]:
+                        weak.append("the stored name is not the argument (as given or lower-cased)")
+            if op == "remove":
+                # retain(|h| lower(h) != lower(argument)): both sides in the same (lower) case, entries that DIFFER are kept
+                rt = f.calls(r"Vec::<T, A>::retain$")
+                okr = False
+                if len(rt) == 1 and not f.calls(UPPER):
+                    cd = f.origin_def(rt[0][1]["args"][1])
+                    if cd and cd[0] == "def" and cd[1]["kind"] == "assign" and cd[1]["stmt"]["rv"].get("closure"):
+                        kb = ctx.facts.find_bodies("^" + re.escape(cd[1]["stmt"]["rv"]["closure"]) + "$", include_absorbed=True)
+                        if kb and not kb[0].calls(UPPER):
+                            k = kb[0]
+                            rd = k.origin_def({"move": {"local": 0, "proj": []}})
+                            neg = False
+                            if rd and rd[0] == "def" and rd[1]["kind"] == "assign" and rd[1]["stmt"]["rv"]["k"] == "unop" and rd[1]["stmt"]["rv"].get("op") == "Not":
+                                neg = True
+                                rd = k.origin_def(rd[1]["stmt"]["rv"]["x"])
+                            if rd and rd[0] == "def" and rd[1]["kind"] == "call" and re.search(r"PartialEq::(eq|ne)$", rd[1]["term"]["callee"]):
+                                keeps_diff = rd[1]["term"]["callee"].endswith("::ne") != neg
+                                sides = [k.slice_op(x) for x in rd[1]["term"]["args"]]
+                                elem_side = [sl_ for sl_ in sides if 2 in sl_.params or 2 in sl_.locals]
+                                # both sides lower-cased: the element inside the closure, the argument in the function
+                                okr = keeps_diff and bool(elem_side) and elem_side[0].has_call(LOWERC) and bool(f.calls(LOWERC))
+                            elif rd and rd[0] == "def" and rd[1]["kind"] == "call" and re.search(r"eq_ignore_ascii_case$", rd[1]["term"]["callee"]):
+                                # sibling: retain(|h| !h.eq_ignore_ascii_case(argument))
+                                sides = [k.slice_op(x) for x in rd[1]["term"]["args"]]
+                                okr = neg and any(2 in sl_.params or 2 in sl_.locals for sl_ in sides) and not k.calls(LOWERC) and not f.calls(LOWERC)
+                if not okr:
+                    yield VIOL("C05-R5", "mutator/%s/retain-condition" % p, "`remove_%s` does not keep exactly the entries whose lower-cased form differs from the lower-cased argument (retain predicate / case handling changed): a removal is ignored or removes the wrong entries" % short, where=loc(f.j["span"]))
+                    continue
             if op == "add" and weak:
                 yield VIOL("C05-R5", "mutator/%s/skip-condition" % p, "`add_%s` skips the new entry on a test weaker than equality with an existing one (%s): a distinct requirement can be dropped" % (short, sorted(set(weak))), where=loc(f.j["span"]))
             elif op == "add" and (shrink or not grow):
